@@ -772,6 +772,7 @@ func c20Verify(r *Run, t *tape.Tape, e c20Entry, n int, vec []int) {
 	}
 	var err error
 	var envMsg *cose.Sign1Message
+	var verifyCall func()
 	k0 := keys[0]
 	s0 := r.signerFor(k0, false)
 	// a validly signed object first
@@ -782,7 +783,7 @@ func c20Verify(r *Run, t *tape.Tape, e c20Entry, n int, vec []int) {
 		if err != nil {
 			r.Skip("could not prepare a signed message: " + err.Error())
 		}
-		r.Lib(func() { err = m.Verify(external, spies[0]) })
+		verifyCall = func() { err = m.Verify(external, spies[0]) }
 	case "Signature.Verify":
 		s := &cose.Signature{Headers: hdr(k0)}
 		body := []byte{0x40}
@@ -790,7 +791,7 @@ func c20Verify(r *Run, t *tape.Tape, e c20Entry, n int, vec []int) {
 		if err != nil {
 			r.Skip("could not prepare a signature: " + err.Error())
 		}
-		r.Lib(func() { err = s.Verify(spies[0], body, payload, external) })
+		verifyCall = func() { err = s.Verify(spies[0], body, payload, external) }
 	case "Countersignature.Verify":
 		parent := c04Parent(r, ent)
 		cs := &cose.Countersignature{Headers: hdr(k0)}
@@ -798,7 +799,7 @@ func c20Verify(r *Run, t *tape.Tape, e c20Entry, n int, vec []int) {
 		if err != nil {
 			r.Skip("could not prepare a countersignature: " + err.Error())
 		}
-		r.Lib(func() { err = cs.Verify(spies[0], parent, external) })
+		verifyCall = func() { err = cs.Verify(spies[0], parent, external) }
 	case "VerifyCountersign0()":
 		parent := c04Parent(r, ent)
 		var sig []byte
@@ -806,7 +807,7 @@ func c20Verify(r *Run, t *tape.Tape, e c20Entry, n int, vec []int) {
 		if err != nil {
 			r.Skip("could not prepare an abbreviated countersignature: " + err.Error())
 		}
-		r.Lib(func() { err = cose.VerifyCountersign0(spies[0], parent, external, sig) })
+		verifyCall = func() { err = cose.VerifyCountersign0(spies[0], parent, external, sig) }
 	case "VerifyHashEnvelope()":
 		a := k0.Alg
 		h := libHeaders(envelopeSafe(genLayer(t, LayerOpts{MaxExtra: 2, Alg: &a})), Spelling{T: t}, true)
@@ -817,7 +818,7 @@ func c20Verify(r *Run, t *tape.Tape, e c20Entry, n int, vec []int) {
 		if err != nil {
 			r.Skip("could not prepare an envelope: " + err.Error())
 		}
-		r.Lib(func() { envMsg, err = cose.VerifyHashEnvelope(spies[0], env) })
+		verifyCall = func() { envMsg, err = cose.VerifyHashEnvelope(spies[0], env) }
 	case "SignMessage.Verify":
 		m := &cose.SignMessage{Headers: libHeaders(genLayer(t, LayerOpts{MaxExtra: 2}), Spelling{T: t}, false), Payload: payload}
 		signers := make([]cose.Signer, n)
@@ -831,7 +832,30 @@ func c20Verify(r *Run, t *tape.Tape, e c20Entry, n int, vec []int) {
 		if err != nil {
 			r.Skip("could not prepare a signed COSE_Sign: " + err.Error())
 		}
-		r.Lib(func() { err = m.Verify(external, vs...) })
+		verifyCall = func() { err = m.Verify(external, vs...) }
+	}
+	if firstErr >= 0 && verifyCall != nil && t.Bool(1, 3, "c20.verify.worked-before") {
+		// the verifying devices worked a moment ago - the very same objects,
+		// the very same message object and bytes were accepted - and fail from
+		// now on: what was accepted then proves nothing now
+		saved := make([]string, n)
+		for i := range spies {
+			saved[i], spies[i].Fault = spies[i].Fault, ""
+		}
+		r.Lib(verifyCall)
+		if e0 := r.TakeSeamPanic(err); e0 != nil {
+			r.Check()
+			r.Fail("verification-fails-without-fault/"+e.name, "no verifier failed but %s returned %v", e.name, e0)
+			return
+		}
+		for i := range spies {
+			spies[i].Fault, spies[i].Calls = saved[i], nil
+		}
+		log, err, envMsg = nil, nil, nil
+		r.Fired("verifier.worked-before-failing")
+	}
+	if verifyCall != nil {
+		r.Lib(verifyCall)
 	}
 	err = r.TakeSeamPanic(err)
 	for i := range spies {
